@@ -18,6 +18,13 @@ func TestVerif(t *testing.T) {
 			if c.Thorough() {
 				u = append(u, 1<<40)
 			}
+			if c.Param("universe", "") == "wide" {
+				// elements that differ only above bit 31 / bit 15, and the extreme values
+				u = []int{5, 1<<32 + 5, 1<<16 + 5, -1 << 63}
+				if c.Thorough() {
+					u = append(u, 1<<63-1)
+				}
+			}
 			api := &vmodel.SetAPI[*IntSet, int]{
 				Name: "IntSet", Universe: u, Fresh: 99, Nil: nil,
 				New:        func(e ...int) *IntSet { return NewIntSet(e...) },
